@@ -18,9 +18,10 @@
 (* only have to lie inside Eligible.  Explicit selections range over all   *)
 (* subsets of received coins, eligible or not.                             *)
 (*                                                                         *)
-(* Every broadcast carries the backend's answer class: accepted, rejected, *)
-(* or a failing notification subscription at the first (change address,    *)
-(* during creation) or second (hand-over, after recording) call.           *)
+(* Every broadcast carries the backend's answer class: accepted, already   *)
+(* in the mempool (stays recorded, counted once), rejected, or a failing   *)
+(* notification subscription at the first (change address, during          *)
+(* creation) or second (hand-over, after recording) call.                  *)
 (***************************************************************************)
 EXTENDS Integers, Sequences, FiniteSets, TLC, Json
 
@@ -29,7 +30,7 @@ CONSTANTS
     MaxSends,   \* created transactions; the change coin of send i is NBase + i
     MaxTip,     \* blocks mined during a behaviour
     Mat,        \* coinbase maturity (the driver uses the same value)
-    Answers,    \* subset of {"accepted","rejected","notifyfail1","notifyfail2"}
+    Answers,    \* subset of {"accepted","inmempool","rejected","notifyfail1","notifyfail2"}
     Acts,       \* actions explored
     LockCoins,  \* coins on which lock / lease actions are explored
     MaxHist,
@@ -174,7 +175,7 @@ Send(acct, scope, mc, k, ans) ==
                    /\ UNCHANGED <<st, spentBy, sends>>
                    /\ UNCHANGED <<tip, locked, leased>>
                    /\ Step("Send", [a EXCEPT !.k = k] @@ [ins |-> {}, elig |-> E], "insufficient")
-              ELSE IF ans = "accepted"
+              ELSE IF ans \in {"accepted", "inmempool"}   \* "already in the mempool" counts as delivered
               THEN /\ Record(acct, scope, TopK(E, k))
                    /\ UNCHANGED <<tip, locked, leased>>
                    /\ Step("Send", a @@ [ins |-> TopK(E, k), elig |-> E], "ok")
